@@ -303,8 +303,23 @@ def run_query(q, bdir, inc=()):
     for d in inc:
         cmd += ["-I", d]
     cmd += ["-D" + d for d in q.defines] + [base + ".c"]
-    if q.unwind:          # loops whose bound is symbolic: the unwinding assertion is part of the VC (a failing one is reported like any obligation)
-        cmd += ["--unwind", str(q.unwind), "--unwinding-assertions"]
+    if q.unwind:
+        # loops are unwound q.unwind times.  First decide the unwinding assertions alone with plain CBMC (they depend on loop counters only): a failing one
+        # means the bound is too small for this job -> undecided, never a violation.  Once they hold, paths beyond the bound do not exist and the VC is
+        # generated with the bound as an assumption.
+        cmdu = ["cbmc", "--no-standard-checks", "--no-built-in-assertions", "--unwind", str(q.unwind), "--unwinding-assertions", "--slice-formula"]
+        for d in inc:
+            cmdu += ["-I", d]
+        cmdu += ["-D" + d for d in q.defines] + ["-D__CPROVER_assert(c,m)=(void)0", base + ".c"]       # user assertions off: only unwinding assertions remain
+        rcu, outu, erru, su = core.run(cmdu, timeout=300, mem_gb=12)
+        r.seconds += su
+        unw = re.findall(r'^\[[^\]]*unwind[^\]]*\][^\n]*: (SUCCESS|FAILURE)', outu or "", re.M)
+        # (CBMC emits an unwinding assertion only for a loop that actually reaches the limit; none at all means every loop finished below it)
+        if rcu is None or "FAILURE" in unw or not re.search(r"VERIFICATION (SUCCESSFUL|FAILED)", outu or ""):
+            r.detail = "unwinding bound %d not shown sufficient (loop bound of the job too small or undecided): %s" % (q.unwind, ((outu or "") + (erru or ""))[-300:])
+            return r
+        r.cmds.append(" ".join(cmdu))
+        cmd += ["--unwind", str(q.unwind)]
     r.cmds.append(" ".join(cmd))
     rc, out, err, s = core.run(cmd, timeout=300, mem_gb=12)
     r.seconds += s
